@@ -3,8 +3,8 @@
    model/Pipeline.v (generic channel LTS), model/ReadPath.v (the concrete stages, controller prelude,
    unrecovered arithmetic). Proofs: proofs/PipelineProofs.v, proofs/ReadPathProofs.v. *)
 From Coq Require Import List ZArith Bool.
-From Qryn Require Import model.ReaderGoroutines gen.GenGoroutinesReader model.Pipeline model.ReadPath
-  proofs.PipelineProofs proofs.ReadPathProofs.
+From Qryn Require Import model.ReaderGoroutines gen.GenGoroutinesReader model.Pipeline model.ReadPath model.ReadFwd
+  proofs.PipelineProofs proofs.ReadPathProofs proofs.ReadFwdProofs.
 Import ListNotations.
 Open Scope Z_scope.
 
@@ -36,9 +36,11 @@ Proof. exact handler_must_keep_receiving. Qed.
 Print Assumptions handler_must_not_stop_at_a_failed_write.
 
 (* Each allow-listed body that has a model has its lemma: Scan (contract, no fault, index inside the buffer),
-   FixPeriodPlanner (contract; no fault under fix_guard), the encoders (contract, no fault). *)
-Theorem allowlisted_bodies_covered : forall a, In a allow_list -> class_obligation (a_class a).
-Proof. exact allowlisted_bodies_have_their_lemma. Qed.
+   FixPeriodPlanner (contract; no fault under fix_guard), the encoders (contract, no fault), the row forwarders of the
+   label / series / Tempo tag and search endpoints and the channel forwarders (contract, no fault), the TraceQL row
+   goroutine (contract; no fault on rows whose array columns are consistent). *)
+Theorem allowlisted_bodies_covered : forall a, In a allow_list -> class_obligation_all (a_class a).
+Proof. exact allowlisted_bodies_have_their_lemmas. Qed.
 Print Assumptions allowlisted_bodies_covered.
 
 (* Generic: for every state and message type, every chain length, every row script and every behaviour of the
@@ -158,3 +160,60 @@ Theorem no_fault_in_unrecovered_code_refuted :
   exists q sh c, prelude_of q = PRun sh c /\ model_outcome q = OCrash.
 Proof. exists huge_range_request. eexists _, _. split; vm_compute; reflexivity. Qed.
 Print Assumptions no_fault_in_unrecovered_code_refuted.
+
+(* ------------------------------------------------------------------ the remaining streaming endpoints (model/ReadFwd.v) *)
+
+(* The generic theorem relative to a predicate on messages: when what the database delivers is acceptable and every
+   body is fault-free on acceptable messages and emits only acceptable ones, every interleaving (the client leaving at
+   any moment included) is finite, never crashes and can only end with every goroutine returned. *)
+Theorem pipeline_terminates_on_acceptable_rows : forall (S M : Type) (okm : M -> bool) (rows : list M) (stages : list (cell S M)),
+  forallb okm rows = true ->
+  Forall (fun c => good_node (c_node c)) stages ->
+  Forall (fun c => nofault_node_on okm (c_node c)) stages ->
+  Forall fresh_stage stages -> Forall (pend_ok okm) stages ->
+  let c0 := init_config rows stages in
+  Acc (fun c' c : config S M => step c c') c0 /\
+  forall c, star c0 c -> crashed c = false /\ (quiescent c -> all_done (cells c)).
+Proof. exact chain_terminates_on. Qed.
+Print Assumptions pipeline_terminates_on_acceptable_rows.
+
+(* Loki / Prometheus labels, label values, series; Tempo tags, tag values, search by tags; the batch forwarders of
+   /api/v2/search/tags|tag/../values and of TraceQL search; the TraceQL row goroutine with its two consumers: whatever
+   arrives on the first channel (any rows, conversion errors, early end), no goroutine is ever left behind. *)
+Theorem forwarding_pipelines_never_leak : forall (c : fchain) (rows : list fmsg),
+  let c0 := init_config rows (fstages c) in
+  Acc (fun c' c1 : config Z fmsg => step c1 c') c0 /\
+  forall cf, star c0 cf -> quiescent cf -> crashed cf = true \/ all_done (cells cf).
+Proof. exact fwd_chain_no_leak. Qed.
+Print Assumptions forwarding_pipelines_never_leak.
+
+(* All of them except the two chains that start with the TraceQL row goroutine never crash either, for all rows. *)
+Theorem forwarding_pipelines_terminate : forall (c : fchain) (rows : list fmsg), no_traceql_rows c = true ->
+  let c0 := init_config rows (fstages c) in
+  Acc (fun c' c1 : config Z fmsg => step c1 c') c0 /\
+  forall cf, star c0 cf -> crashed cf = false /\ (quiescent cf -> all_done (cells cf)).
+Proof. exact fwd_chain_terminates. Qed.
+Print Assumptions forwarding_pipelines_terminate.
+
+(* TraceQLRequestProcessor runs without recover and indexes durations / timestamps by the positions of span_ids: on
+   rows whose three array columns are consistent (what groupArray over the same rows yields) every chain terminates
+   without a crash ... *)
+Theorem traceql_pipelines_terminate_partial : forall (c : fchain) (rows : list fmsg), forallb fmsg_ok rows = true ->
+  let c0 := init_config rows (fstages c) in
+  Acc (fun c' c1 : config Z fmsg => step c1 c') c0 /\
+  forall cf, star c0 cf -> crashed cf = false /\ (quiescent cf -> all_done (cells cf)).
+Proof. exact fwd_chain_terminates_on. Qed.
+Print Assumptions traceql_pipelines_terminate_partial.
+
+(* ... and on any other row the process exits: the condition is needed (a database that evaluates the statement cannot
+   return such a row; the harness does not generate it on the unchanged tree). *)
+Theorem traceql_unrecovered_index_refuted : ~ nofault_node tq_node /\ exists q, fst (fwd_outcome q) = OCrash.
+Proof. split; [exact tq_faults_on_ragged_rows|exists ragged_request; rewrite traceql_ragged_row_crashes; reflexivity]. Qed.
+Print Assumptions traceql_unrecovered_index_refuted.
+
+(* Bounded work: a request of these endpoints issues at most 2 SQL statements (version bootstrap not counted), except a
+   TraceQL search whose complexity estimate cx reaches the threshold: 1 + ceil(cx / 10^7), the portion loop of
+   ComplexRequestProcessor running portions - i down to 0 (it is the structurally decreasing argument of portion_loop). *)
+Theorem read_statements_bounded : forall q : frequest, 0 <= snd (fwd_outcome q) <= stmt_bound q.
+Proof. exact fwd_statements_bounded. Qed.
+Print Assumptions read_statements_bounded.
